@@ -746,12 +746,21 @@ V('c08-twin-purge-inline', 'C08', 'C08.PURGE', CORE,
   "        self._async_remove_queued_answers(withdrawn)\n", "        self.out_queue._remove_answers_from_queue(dict.fromkeys(withdrawn, set()))\n        self.out_delay_queue._remove_answers_from_queue(dict.fromkeys(withdrawn, set()))\n", expect='silent')
 
 # ---------------------------------------------------------------- C09
-V('c09-register-before-probe', 'C09', 'C09.ORDER', CORE,
-  "        await self.async_check_service(info, allow_name_change, cooperating_responders, strict)\n        self.registry.async_add(info)",
-  "        self.registry.async_add(info)\n        await self.async_check_service(info, allow_name_change, cooperating_responders, strict)")
-V('c09-probe-not-awaited', 'C09', 'C09.ORDER', CORE,
-  "        await self.async_check_service(info, allow_name_change, cooperating_responders, strict)\n        self.registry.async_add(info)",
-  "        asyncio.ensure_future(self.async_check_service(info, allow_name_change, cooperating_responders, strict))\n        self.registry.async_add(info)")
+_REG_TAIL = "        await self.async_check_service(info, allow_name_change, cooperating_responders, strict)\n        # The default host name is the instance name: derive it only once\n        # the name is final (the check may have renamed the service)\n        info.set_server_if_missing()\n        self.registry.async_add(info)"
+V('c09-register-before-probe', 'C09', 'C09.ORDER', CORE, _REG_TAIL,
+  "        info.set_server_if_missing()\n        self.registry.async_add(info)\n        await self.async_check_service(info, allow_name_change, cooperating_responders, strict)")
+V('c09-probe-not-awaited', 'C09', 'C09.ORDER', CORE, _REG_TAIL,
+  "        asyncio.ensure_future(self.async_check_service(info, allow_name_change, cooperating_responders, strict))\n        info.set_server_if_missing()\n        self.registry.async_add(info)")
+# F16 re-introduced: the default host name (= instance name) is derived before the check that may rename the service
+V('c09-host-default-before-rename', 'C09', 'C09.ORDER', CORE, _REG_TAIL,
+  "        info.set_server_if_missing()\n        await self.async_check_service(info, allow_name_change, cooperating_responders, strict)\n        self.registry.async_add(info)", names=['async_register_service'])
+# the host default is missing altogether on the registration path (the registry indexes by host)
+V('c09-host-default-dropped', 'C09', 'C09.ORDER', CORE, _REG_TAIL,
+  "        await self.async_check_service(info, allow_name_change, cooperating_responders, strict)\n        self.registry.async_add(info)", names=['async_register_service'])
+# twin: the default is derived early AND again once the name is final -- harmless only if the second derivation can take effect; it cannot
+# (set_server_if_missing keeps a server that is set), so this one must FIRE as well
+V('c09-host-default-early-and-late', 'C09', 'C09.ORDER', CORE,
+  "            info.other_ttl = ttl\n\n        await self.async_wait_for_start()", "            info.other_ttl = ttl\n\n        info.set_server_if_missing()\n        await self.async_wait_for_start()", names=['async_register_service'])
 V('c09-conflict-ignored', 'C09', 'C09.ORDER', CORE,
   "                if not allow_name_change:\n                    raise NonUniqueNameException\n", "                if not allow_name_change:\n                    break\n")
 V('c09-rename-keeps-count', 'C09', 'C09.ORDER', CORE,
